@@ -2,6 +2,6 @@
 # usage: tools/round.sh <mutroot> <prop>   e.g. tools/round.sh /tmp/mut5 C09
 # verifies the sub-agent's two deliverables in a scratch worktree and tries them (overlay) against their own property
 root=$1; p=$2
-git -C /repo worktree remove --force /tmp/wt/r5/$p 2>/dev/null; git -C /repo worktree prune
+git -C /repo worktree remove --force /tmp/wt/r5/$p 2>/dev/null; git -C /repo worktree remove --force /tmp/wt/r6/$p 2>/dev/null; git -C /repo worktree prune
 /verif/tools/verify_mut.sh $root/$p/m1 $root/$p/m2 2>&1 | grep -v "^Preparing\|^HEAD" | tee -a $root/verify.log
 /verif/tools/tryall.sh /tmp/try.$p.out $root/$p/m1 $root/$p/m2; cat /tmp/try.$p.out | tee -a $root/try.log
